@@ -226,3 +226,7 @@ package ice
 //@   props C03 C02
 //@   opt nosafety
 //@   site call append#1 assert records-the-local-candidate-the-request-leaves-from: len(arg1) == 1 && arg1[0].source == local
+//@   ghostvar ctl bool = false
+//@   site call Contains#2 assert C05 asks-the-message-for-the-controlling-attribute: arg0 == msg && arg1 == stun.AttrICEControlling
+//@   site call Contains#2 ghost ctl := result
+//@   site call append#1 assert C05 records-the-role-the-check-is-sent-in: arg1[0].isControlling == ctl
